@@ -1309,6 +1309,39 @@ func (e *absEnv) stdCall(fr *absFrame, name string, args []aval, depth int) (ava
 			f := map[string]func(rune) bool{"unicode.IsSpace": unicode.IsSpace, "unicode.IsDigit": unicode.IsDigit, "unicode.IsLetter": unicode.IsLetter, "unicode.IsUpper": unicode.IsUpper, "unicode.IsLower": unicode.IsLower}[base]
 			return abool(f(rune(v))), true
 		}
+	case "path/filepath.Clean", "path/filepath.Dir", "path/filepath.Base", "path/filepath.Ext", "path/filepath.IsAbs", "path/filepath.FromSlash":
+		// evaluated for a slash-separated platform
+		if v, ok := args[0].(astr); ok {
+			switch base {
+			case "path/filepath.Clean":
+				return astr(path.Clean(string(v))), true
+			case "path/filepath.Dir":
+				return astr(path.Dir(string(v))), true
+			case "path/filepath.Base":
+				return astr(path.Base(string(v))), true
+			case "path/filepath.Ext":
+				return astr(path.Ext(string(v))), true
+			case "path/filepath.IsAbs":
+				return abool(path.IsAbs(string(v))), true
+			case "path/filepath.FromSlash":
+				return v, true
+			}
+		}
+	case "path/filepath.Join", "path.Join":
+		if sl, ok := args[0].(avals); ok {
+			var parts []string
+			for _, c := range sl.cells {
+				p, ok := c.f[""].(astr)
+				if !ok {
+					return nil, false
+				}
+				parts = append(parts, string(p))
+			}
+			return astr(path.Join(parts...)), true
+		}
+		if _, isNil := args[0].(anil); isNil {
+			return astr(""), true
+		}
 	case "net/textproto.CanonicalMIMEHeaderKey", "net/http.CanonicalHeaderKey":
 		if v, ok := args[0].(astr); ok {
 			return astr(textproto.CanonicalMIMEHeaderKey(string(v))), true
